@@ -19,7 +19,8 @@ pub fn main(a: &Args) {
     }
 }
 
-const FILL: [&str; 6] = ["alpha beta gamma delta", "lorem ipsum dolor sit amet", "quick brown fox jumps", "over the lazy dog today", "seven eight nine ten", "red green blue yellow"];
+// sentences: a budget below a paragraph's length splits it at sentence ends
+const FILL: [&str; 6] = ["alpha beta gamma delta.", "Lorem ipsum dolor sit amet.", "Quick brown fox jumps.", "Over the lazy dog today.", "Seven eight nine ten.", "Red green blue yellow."];
 
 fn author(c: &Value) -> Result<Vec<u8>, String> {
     let mut doc = Document::new();
@@ -40,7 +41,8 @@ fn author(c: &Value) -> Result<Vec<u8>, String> {
                     y -= 22.0;
                     let lines = b["lines"].as_u64().unwrap_or(1);
                     for ln in 0..lines {
-                        let text = if ln == 0 { format!("P{id}X {}", FILL[(id as usize) % 6]) } else { format!("{} {}", FILL[(id as usize + ln as usize) % 6], FILL[(id as usize + 2 * ln as usize + 1) % 6]) };
+                        // every line opens with its own marker (X, B, C)
+                        let text = if ln == 0 { format!("P{id}X {}", FILL[(id as usize) % 6]) } else { format!("P{id}{} {} {}", if ln == 1 { 'B' } else { 'C' }, FILL[(id as usize + ln as usize) % 6], FILL[(id as usize + 2 * ln as usize + 1) % 6]) };
                         page.text().set_font(Font::Helvetica, 10.0).at(72.0, y).write(&text).map_err(|e| e.to_string())?;
                         if ln + 1 < lines {
                             y -= 12.0;
@@ -55,6 +57,12 @@ fn author(c: &Value) -> Result<Vec<u8>, String> {
                     y -= 24.0;
                     let mut t = Table::new(vec![150.0, 150.0]);
                     t.set_position(72.0, y);
+                    if id % 2 == 1 {
+                        // a table set smaller than the prose around it
+                        let mut o = t.options().clone();
+                        o.font_size = 7.0;
+                        t.set_options(o);
+                    }
                     t.add_header_row(vec![format!("T{id}A name"), format!("T{id}B value")]).map_err(|e| e.to_string())?;
                     t.add_row(vec![format!("T{id}C one"), format!("T{id}D two")]).map_err(|e| e.to_string())?;
                     let h = t.get_height();
